@@ -95,6 +95,23 @@ def _tempo_values(ctx, r):
         ns.append(r.randrange(10 ** (d - 1), 10**d))
     ns += [10**k for k in range(0, 10)] + [10**k - 1 for k in range(1, 10)] + [10**k + 1 for k in range(1, 10)]
     ns += [1118, 1001, 999, 1000, 4100, 8200, 16400]
+    # "for every positive integer n ... any digit count": values of 10-60 digits, and the hardest values for "the nearest
+    # float" at every binary exponent - the integers n next to 1000 x (the midpoint of two adjacent doubles)
+    from fractions import Fraction
+    for _ in range(ctx.pick(3000, 150000)):
+        d = r.randrange(10, 61)
+        ns.append(r.randrange(10 ** (d - 1), 10**d))
+    for _ in range(ctx.pick(1500, 100000)):
+        e = r.randrange(-62, 140)                 # the doubles k * 2^e, k a 53-bit significand
+        k = r.getrandbits(52) | (1 << 52)
+        mid1000 = Fraction(1000 * (2 * k + 1)) * (Fraction(2) ** (e - 1))
+        lo = mid1000.numerator // mid1000.denominator
+        for n in (lo - 1, lo, lo + 1, lo + 2):
+            if n >= 1:
+                ns.append(n)
+    for j in (84, 85, 100, 120, 150):
+        for m in (2**j + 2**(j - 53), 2**j + 2**(j - 52) + 2**(j - 53)):      # consecutive midpoints just above 2^j
+            ns += [1000 * m - 1, 1000 * m, 1000 * m + 1]
     return ns
 
 
